@@ -399,6 +399,35 @@ def merge_rows():
     return out
 
 
+def lib_formats():
+    """[(constructor, method, format literal)] of the container impls of ts-rs/src/lib.rs (Option, Result, Vec, HashMap, Range):
+    the first string literal of the first format! call in name() / inline()"""
+    lib = read("ts-rs/src/lib.rs")
+    out = []
+    for ctor, head in (("Option", r"impl<T: TS> TS for Option<T>"), ("Result", r"impl<T: TS, E: TS> TS for Result<T, E>"),
+                       ("Vec", r"impl<T: TS> TS for Vec<T>"), ("HashMap", r"impl<K: TS, V: TS, H> TS for HashMap<K, V, H>"),
+                       ("Range", r"impl<I: TS> TS for Range<I>")):
+        k = lib.find(head)
+        if k < 0:
+            raise TranslatorError("translator could not find `%s` in ts-rs/src/lib.rs" % head)
+        body, _ = balanced(lib, lib.index("{", k))
+        for fn in ("name", "inline"):
+            m = re.search(r"fn %s\(\)\s*->\s*String\s*\{" % fn, body)
+            if not m:
+                if ctor == "Range" and fn == "inline":
+                    continue
+                raise TranslatorError("translator could not find %s::%s() in ts-rs/src/lib.rs" % (ctor, fn))
+            fbody, _ = balanced(body, m.end() - 1)
+            fm = re.search(r"format!\s*\(", fbody)
+            if not fm:
+                if ctor == "Range" and fn == "inline":
+                    continue      # Range::inline() panics (not a format)
+                raise TranslatorError("%s::%s(): no format! call" % (ctor, fn))
+            call, _ = balanced(fbody, fm.end() - 1, "(", ")")
+            out.append((ctor, fn, rust_str_literal(first_literal(call))))
+    return out
+
+
 def documented_serde_keys():
     src = read("ts-rs/src/lib.rs")
     m = re.search(r"//! ## serde compatability(.*?)\n//! ##", src, re.S) or re.search(r"serde-compat(.*?)Supported serde attributes:(.*?)\n//!\s*\n//! ", src, re.S)
@@ -456,6 +485,8 @@ def generate():
                     "compat": lambda: "VCompat"}[a[0]]()
         L.append("Definition validity_rows_%s : list (list vatom * str) :=\n  %s." % (pos, coq_list(
             ["(%s, %s)" % (coq_list([atom(a) for a in atoms]), coq_str(msg)) for atoms, msg in rows], sep=";\n   ")))
+    L.append("Definition lib_formats : list (str * str * str) :=\n  %s." % coq_list(
+        ["(%s, %s, %s)" % (coq_str(c), coq_str(f), coq_str(lit)) for c, f, lit in lib_formats()], sep=";\n   "))
     for pos, rows in sorted(merge_rows().items()):
         L.append("Definition merge_rows_%s : list (str * str) :=\n  %s." % (pos, coq_list(
             ["(%s, %s)" % (coq_str(f), coq_str(k)) for f, k in rows], sep=";\n   ")))
